@@ -58,10 +58,14 @@ CLAIMED = {
        "totalDigits/fractionDigits both directions; integer likewise; hex/base64 valid iff lexical, decode(encode)=id, accepted strings are exactly "
        "the encoding of the returned octets modulo white space; collapse = XSD 4.3.6, idempotent; boolean; date/time: validateDateTime = field validity, "
        "normalize preserves the instant, compareOrder = time-line order. Tied to the code by correspondence through XMLBigDecimal/XMLBigInteger/HexBin/"
-       "Base64/XMLString/XMLDateTime directly, the built-in validators, and XSValue; the Spec judges all three routes and validator/XSValue must agree.",
+       "Base64/XMLString/XMLDateTime directly, the built-in validators, and XSValue; the Spec judges all three routes and validator/XSValue must agree. "
+       "Facet tier: code-shaped model of AbstractNumericFacetValidator::inspectFacet/inspectFacetBase/inheritFacet, boundsCheck, Decimal digits/enumeration, "
+       "AbstractStringValidator length facets, List/Union checkContent; for restriction chains of ANY length the inherited facet set accepts iff base and every "
+       "step accept (inherit_eq_conjunction), bounds = XSD 4.3 (bounds_spec), derived subset of base (restriction_monotone), list_iff, union_iff; tied by real "
+       "schema documents validated in-parse and through the grammar's DatatypeValidator, with model-independent monotonicity and loosening-derivation checks.",
   note="PARTIAL: date/time theorems are *_partial (field level; order theorems for values in normal range with equal zonedness; the 14-hour rule by "
        "correspondence + witness; durations not modelled). float/double: lexical recogniser + validator/XSValue agreement only. In-parse validation is "
-       "represented by validator(white-space-normalised string). Bounds/enumeration facets, list/union, restriction chains: not built. Trusted: Lean kernel + "
+       "represented by validator(white-space-normalised string). Facet tier partial: value space abstract (order laws instantiated for decimal and integers/time-line instants); fixed attribute, pattern facet not modelled. Trusted: Lean kernel + "
        "propext/Classical.choice/Quot.sound; Specs as transcribed; translator; harness/generators.",
   technique="Lean 4 proof over translator-generated tables + model/implementation correspondence, Spec-judged on three API routes",
   ref="4/C09"),
